@@ -164,6 +164,28 @@ func (n node) buildRaw(path string, o *buildOpts) any {
 			return stackage.Cond("kw"+path, stackage.Le, &p2)
 		}
 		return &p2
+	case "AF": // an alias that wraps every method of the exported Interface (it qualifies for Interface; it is a Stack alias)
+		return StackAliasF(n.buildStack(path, o))
+	case "CAF":
+		return stackage.Cond("kw"+path, stackage.Gt, StackAliasF(n.buildStack(path, o)))
+	case "CFS": // the same for a Condition alias, over a Stack
+		return CondAliasF(stackage.Cond("kw"+path, stackage.Lt, n.buildStack(path, o)))
+	case "NPS", "NPA", "CNPS", "NPC", "PNPS": // declared pointer types (type StackRef *Stack ...): pointers like any other
+		st := n.buildStack(path, o)
+		switch n.T {
+		case "NPS":
+			return StackRef(&st)
+		case "NPA":
+			a := StackAlias(st)
+			return AliasRef(&a)
+		case "CNPS":
+			return stackage.Cond("kw"+path, stackage.Ge, StackRef(&st))
+		case "NPC":
+			cd := stackage.Cond("kw"+path, stackage.Ne, st)
+			return CondRef(&cd)
+		}
+		r := StackRef(&st)
+		return &r // a plain pointer to a declared pointer
 	case "C2S": // a Condition whose expression is a Condition that holds a Stack: not a way down (the expression is no Stack)
 		return stackage.Cond("outer"+path, stackage.Eq, stackage.Cond("inner"+path, stackage.Ne, n.buildStack(path, o)))
 	case "C2A":
